@@ -72,14 +72,13 @@ class FrontEndSpec(Spec):
         self.max_len = max_len
         self.min_len = min_len
         self.max_cost = 3 if max_len <= 2 else 4
+        self.rule = ('history = sequence of <= %d doctests over the outcome kinds %r (cost: pass 0, the classic kinds 1, the rest 2; '
+                     'total cost <= %d), each module run under styles %r x '
+                     'options %r through both front ends; non-trivial = configuration with at least two different '
+                     'outcomes or an option that changes an outcome' % (max_len, KINDS, self.max_cost, STYLES, OPTIONS))
 
     def cost(self, ev):
         return outcomes.kind_cost(ev) if ev in outcomes.KINDS else 2
-
-        self.max_cost = 99
-        self.rule = ('history = sequence of <= %d doctests over the outcome kinds %r, each module run under styles %r x '
-                     'options %r through both front ends; non-trivial = configuration with at least two different '
-                     'outcomes or an option that changes an outcome' % (max_len, KINDS, STYLES, OPTIONS))
 
     def init(self):
         return (0, 0, 0, 0)
@@ -253,7 +252,23 @@ class SubprocessSpec(FrontEndSpec):
                 'nontrivial': int(len(set(outcomes.outcome(k) for k in kinds)) >= 2)}
 
 
+class CmdNameSpec(FrontEndSpec):
+    """the same comparison for modules whose callables bear the names of the runner's commands (all, list, dump)"""
+    title = 'pytest --xdoctest vs native runner for callables named all / list / dump'
+
+    def __init__(self, name, max_len):
+        FrontEndSpec.__init__(self, name, max_len)
+        self.rule = 'callables named %r: ' % (outcomes.COMMAND_NAMES,) + self.rule
+
+    def run_case(self, hist):
+        outcomes.NAMES = outcomes.COMMAND_NAMES
+        try:
+            return FrontEndSpec.run_case(self, hist)
+        finally:
+            outcomes.NAMES = None
+
+
 def specs(tier):
     if tier == 'thorough':
-        return [FrontEndSpec('modules<=3', 3), SubprocessSpec('subprocess<=2', 2, STYLES, OPTIONS)]
-    return [FrontEndSpec('modules<=2', 2), SubprocessSpec('subprocess<=2', 2, ['auto'], [None], max_cost=2)]
+        return [FrontEndSpec('modules<=3', 3), SubprocessSpec('subprocess<=2', 2, STYLES, OPTIONS), CmdNameSpec('command-names<=2', 2)]
+    return [FrontEndSpec('modules<=2', 2), SubprocessSpec('subprocess<=2', 2, ['auto'], [None], max_cost=2), CmdNameSpec('command-names<=1', 1)]
